@@ -353,7 +353,7 @@ def c5_readyok_quit(fb, rep, cg):
                         printers.add(f.sname)
         rep.ob(clause, 'K5 who-may-print', 'functions printing "readyok"', printers == {'UCIProtocol::handleCommand'}, '',
                'printers: %s' % sorted(printers), '')
-        br = R.branch_blocks(hc, R.str_eq_cond('cmd', 'isready'))
+        br = R.branch_blocks(hc, R.str_eq_cond(None, 'isready'))
         rep.floor(clause, 'isready arm', len(br), 1)
         for bid, pol, t, f_ in br:
             start = (t, -1)
@@ -370,7 +370,7 @@ def c5_readyok_quit(fb, rep, cg):
             dom = hc.dominators().get(b, set())
             rep.ob(clause, 'K4 guard', 'readyok only in the isready arm', bool(arms & dom), R.site(hc, e), '', hc.sname)
         # quit arm sets the flag
-        brq = R.branch_blocks(hc, R.str_eq_cond('cmd', 'quit'))
+        brq = R.branch_blocks(hc, R.str_eq_cond(None, 'quit'))
         rep.floor(clause, 'quit arm', len(brq), 1)
         for bid, pol, t, f_ in brq:
             def setq(e):
